@@ -595,9 +595,138 @@ fn c12_case(root: &Root, depth: u32, what: &str) -> J {
 }
 
 /// the roots of C12: tb families (stride), low-material reach sets with history, repetition roots
+/// The two-tower exchange position and all positions with at most `max_missing` participants removed.
+pub fn exchange_tower_positions(max_missing: usize) -> Vec<Pos> {
+    let base = Pos::from_fen("3r3k/1bnqb3/1nprpp1p/3p2p1/1NP1PP1P/1BNRB3/3R4/3Q3K w - - 0 1").expect("tower fen");
+    // everything but the kings and the two target pawns (d5, g5) takes part
+    let d5 = rules::sq_from_name("d5").unwrap();
+    let g5 = rules::sq_from_name("g5").unwrap();
+    let parts: Vec<u8> = (0..64u8).filter(|&s| base.b[s as usize] != rules::EMPTY && rules::kind_of(base.b[s as usize]) != rules::K && s != d5 && s != g5).collect();
+    let mut out = Vec::new();
+    let mut push = |p: &Pos| {
+        for stm in [rules::WHITE, rules::BLACK] {
+            let mut q = *p;
+            q.stm = stm;
+            if q.is_legal_position() && !q.legal_moves().is_empty() {
+                out.push(q);
+            }
+        }
+    };
+    // subsets by increasing number of removed participants
+    let n = parts.len();
+    let mut idx: Vec<usize> = Vec::new();
+    fn rec(parts: &[u8], base: &Pos, start: usize, left: usize, idx: &mut Vec<usize>, push: &mut dyn FnMut(&Pos)) {
+        let mut p = *base;
+        for &i in idx.iter() {
+            p.b[parts[i] as usize] = rules::EMPTY;
+        }
+        push(&p);
+        if left == 0 {
+            return;
+        }
+        for i in start..parts.len() {
+            idx.push(i);
+            rec(parts, base, i + 1, left - 1, idx, push);
+            idx.pop();
+        }
+    }
+    let _ = n;
+    rec(&parts, &base, 0, max_missing, &mut idx, &mut push);
+    out
+}
+
+/// Dense positions (all 32 men) whose depth-1 value depends on captures far below the horizon: found offline
+/// with `wmc chainfind` among 43,000 deterministic scrambles; the number is the deepest capture ply (counted
+/// from the horizon) at which cutting the reference's capture extension changes the value. The check
+/// re-measures this at run time and reports which cut depths still have a witness. The flag marks the roots
+/// whose reference search is small enough for the quick tier.
+pub const DEEP_CHAIN_ROOTS: &[(&str, u32, bool)] = &[
+    ("1B3B2/1PN1KpP1/5n1b/RrPppp2/p1pRq1P1/rPpN2PP/bQP4p/3k2n1 w - - 0 1", 16, true),
+    ("2B3nK/Pr1P1N1p/1rb1PQ1B/1pp1p2P/P1pp1pkp/b2PPN2/1n2PR1q/5R2 b - - 0 1", 16, true),
+    ("4bR1b/4PP1K/pN1n1B2/pP2PQr1/N1Rppp2/1ppp1nB1/kPP1Pq1P/4r3 w - - 0 1", 18, false),
+    ("7N/1qPp4/1PPp1pPP/1kBPpB2/1n1pp2K/R1rrP1P1/2NnpQp1/b1bR4 w - - 0 1", 19, true),
+    ("2Q1KB2/4pP1P/rPPppp2/1qR2pRr/pNB1Pp1N/n2P1n2/2p1PPb1/3k3b b - - 0 1", 20, false),
+    ("2nK2Q1/pp1pR1bN/3rr3/p2RP2P/PP1p2nB/1B1qN2P/1PpP1ppP/b6k b - - 0 1", 20, true),
+    ("6N1/2qb2Pp/B3PpPp/kpp3P1/B1rQPPRR/nb1p1KpN/Pn3Pp1/4r3 b - - 0 1", 20, false),
+    ("K5N1/p2B2PP/1PPk3r/Pp1P2pb/rP1p2Q1/Bnp1pp2/2pPb1qR/1n1R2N1 w - - 0 1", 20, true),
+    ("NqBQnr2/2b1Kpp1/P1P1PP2/1r1PR1P1/2pppnBb/1pR1Pp2/2N1P1p1/1k6 w - - 0 1", 20, true),
+    ("R2r2N1/2K1p2P/BBpPrPk1/pPq1pNPp/1P1P2Qp/p2pb3/1P3n2/1b2n1R1 w - - 0 1", 20, false),
+    ("r2N3n/2PPbPP1/PpKp1p1B/1pP3P1/2Q1p3/1n1R1P1p/ppBNRr2/4b1kq b - - 0 1", 20, true),
+    ("8/2N1ppPP/bK2P1RB/Rp3qpp/1P1r1nPr/1pb1QPPn/PpBpN3/5k2 b - - 0 1", 22, false),
+    ("n7/K1pbr3/p3RP2/1P2NB2/pN1PP1P1/kPPpppnq/P1pbQrp1/5R1B b - - 0 1", 22, true),
+    ("BBK5/P3QP1n/1Ppp1PPN/pp1P1rr1/PbR2p1p/p1nkPq1R/4p1b1/3N4 w - - 0 1", 23, true),
+];
+
+/// depth-1 value of a root by the reference with its capture extension cut after `qcap` plies
+fn depth1_value(root: &Root, h: &ZobristHasher, qcap: u32) -> Option<i32> {
+    let succs = crate::move_generation::generate_moves(&root.board, crate::move_generation::MoveGenerationMode::AllMoves, h);
+    let mut r = Ref::new(h, 50_000_000);
+    r.qcap = qcap;
+    let mut table = root.table.clone();
+    let mut best = i32::MIN;
+    for c in &succs {
+        let v = -r.alphabeta(c, 0, 1, -10_000_000, 10_000_000, &mut table);
+        if r.capped {
+            return None;
+        }
+        best = best.max(v);
+    }
+    Some(best)
+}
+
+/// which cut depths of the capture extension would be noticed on the deep-chain roots (coverage statement)
+fn chain_depth_coverage(rep: &Report, h: &ZobristHasher) -> u64 {
+    let quick = rep.quick();
+    let chosen: Vec<&(&str, u32, bool)> = DEEP_CHAIN_ROOTS.iter().filter(|(_, _, q)| *q || !quick).collect();
+    let roots: Vec<Root> = chosen.iter().filter_map(|(f, _, _)| Pos::from_fen(f)).map(|p| fresh_root(&p, h)).collect();
+    let caps: Vec<u32> = (8..=26).collect();
+    let recorded: Vec<u32> = chosen.iter().map(|(_, d, _)| *d).collect();
+    let jobs: Vec<(usize, usize)> = (0..roots.len()).flat_map(|r| (0..caps.len()).map(move |c| (r, c))).filter(|(r, c)| !quick || caps[*c] == recorded[*r]).collect();
+    let exact: Vec<Option<i32>> = crate::e4_session::run_parallel(roots.len(), |i| depth1_value(&roots[i], h, u32::MAX));
+    let differs: Vec<bool> = crate::e4_session::run_parallel(jobs.len(), |j| {
+        let (r, c) = jobs[j];
+        match (exact[r], depth1_value(&roots[r], h, caps[c])) {
+            (Some(a), Some(b)) => a != b,
+            _ => false,
+        }
+    });
+    let mut covered: Vec<u32> = Vec::new();
+    for (ci, cap) in caps.iter().enumerate() {
+        if jobs.iter().enumerate().any(|(j, (_, c))| *c == ci && differs[j]) {
+            covered.push(*cap);
+        }
+    }
+    let deepest = covered.iter().max().cloned().unwrap_or(0);
+    rep.set_extra("capture_chain_depth_coverage", J::obj().set("cut_depths_with_a_witness_root", J::Arr(covered.iter().map(|c| J::Int(*c as i128)).collect())).set("deepest", J::Int(deepest as i128)).set("cut_depths_measured", J::s(if quick { "each root at the depth recorded for it" } else { "every root at every depth 8..=26" })).set("meaning", J::s("a capture extension cut after N plies changes the depth-1 value of at least one root for every N listed; deeper cuts are outside what this check can notice")));
+    rep.add("deepest_capture_ply_below_the_horizon_with_a_witness", deepest as u64);
+    jobs.len() as u64
+}
+
 fn c12_roots(rep: &Report, h: &ZobristHasher) -> Vec<Root> {
     let quick = rep.quick();
     let mut roots: Vec<Root> = Vec::new();
+    // development aid: compare only the positions listed in a file (one FEN per line); never set by bin/check
+    if let Ok(f) = std::env::var("WMC_C12_ROOTS_FILE") {
+        for l in std::fs::read_to_string(&f).unwrap_or_default().lines() {
+            if let Some(p) = Pos::from_fen(l.trim()) {
+                roots.push(fresh_root(&p, h));
+            }
+        }
+        rep.note(format!("WMC_C12_ROOTS_FILE is set: only {} listed positions are compared (development run, not a verdict for the property)", roots.len()));
+        return roots;
+    }
+    // the expensive roots first (they are the long poles of the parallel run)
+    for (f, _, in_quick) in DEEP_CHAIN_ROOTS {
+        if *in_quick || !quick {
+            roots.push(fresh_root(&Pos::from_fen(f).expect("deep chain fen"), h));
+        }
+    }
+    // capture chains below the horizon of every length up to 22: one square attacked eight times and defended
+    // eight times, a second one three against three, and every position obtained by taking away up to k of
+    // the 22 participants; both sides to move
+    for p in exchange_tower_positions(if quick { 1 } else { 3 }) {
+        roots.push(fresh_root(&p, h));
+    }
     for (_, extra) in [("KQK", vec![rules::pc(rules::WHITE, rules::Q)]), ("KRK", vec![rules::pc(rules::WHITE, rules::R)])] {
         let t = tb::build(&extra, threads());
         let stride = if quick { 20 } else { 3 };
@@ -711,7 +840,7 @@ pub fn run_c12(rep: &Report) -> i32 {
                 }
                 let root = &roots[i];
                 let pieces = root.pos.b.iter().filter(|x| **x != 0).count();
-                let max_d: u32 = if pieces > 10 { 2 } else { 3 };
+                let max_d: u32 = if pieces > 20 { 1 } else if pieces > 10 { 2 } else { 3 };
                 if root.pos.legal_moves().is_empty() {
                     continue;
                 }
@@ -805,6 +934,8 @@ pub fn run_c12(rep: &Report) -> i32 {
             });
         }
     });
+    let coverage_runs = chain_depth_coverage(rep, &h);
+    rep.add("reference_runs_measuring_capture_chain_coverage", coverage_runs);
     rep.add("positions_compared", searched.load(Ordering::Relaxed));
     rep.add("positions_skipped_by_reference_node_cap", skipped.load(Ordering::Relaxed));
     rep.add("reference_nodes", ref_nodes.load(Ordering::Relaxed));
@@ -817,6 +948,124 @@ pub fn run_c12(rep: &Report) -> i32 {
     if skipped.load(Ordering::Relaxed) > 0 {
         rep.note(format!("{} positions skipped because the unpruned reference exceeded {} nodes (not counted as explored)", skipped.load(Ordering::Relaxed), node_cap));
     }
-    let rule = "every root of: KQK/KRK complete families on a stride, the complete K+P v K family with the pawn one or two steps from promotion (both colours, both sides to move), the positions of the castling / en-passant / promotion families in which such a move gives check (on a stride), all move paths of length <= 2/3 from the low-material S1 roots (history preloaded through the real position command), the C07 roots, constructed repetition histories; iterations 1..3 (1..2 above 10 pieces); each reported (move, score) and each iteration's final score compared with plain negamax";
+    let rule = "every root of: KQK/KRK complete families on a stride, the complete K+P v K family with the pawn one or two steps from promotion (both colours, both sides to move), the positions of the castling / en-passant / promotion families in which such a move gives check (on a stride), all move paths of length <= 2/3 from the low-material S1 roots (history preloaded through the real position command), the C07 roots, constructed repetition histories, the two-tower exchange position (one square attacked and defended eight times, one three times) with every set of <= 1/3 participants removed, dense 32-man roots whose value depends on captures up to 23 plies below the horizon (re-measured, see capture_chain_depth_coverage); iterations 1..3 (1..2 above 10 pieces, 1 above 20); each reported (move, score) and each iteration's final score compared with plain negamax";
     rep.finish(searched.load(Ordering::Relaxed), ref_nodes.load(Ordering::Relaxed), lines.load(Ordering::Relaxed), skipped.load(Ordering::Relaxed) == 0, rule)
+}
+
+
+/// Development aid (`wmc chainfind <count> <min_depth>`): deterministic dense scrambles of the full set of men,
+/// with the number of capture plies below the horizon that the depth-1 value depends on (the largest N for
+/// which a reference cut after N capture plies gives another value than the reference itself).
+pub fn chainfind(count: usize, min_d: u32) {
+    let h = ZobristHasher::create_zobrist_hasher();
+    let found = std::sync::Mutex::new(Vec::<(u32, String)>::new());
+    let idx = AtomicUsize::new(0);
+    std::thread::scope(|s| {
+        for _ in 0..threads() {
+            s.spawn(|| loop {
+                let i = idx.fetch_add(1, Ordering::Relaxed);
+                if i >= count {
+                    break;
+                }
+                let mut x: u64 = 0x9E3779B97F4A7C15u64.wrapping_mul(i as u64 + 1);
+                let mut next = || {
+                    x ^= x << 13;
+                    x ^= x >> 7;
+                    x ^= x << 17;
+                    x
+                };
+                let men: Vec<u8> = {
+                    let mut v = Vec::new();
+                    for c in [rules::WHITE, rules::BLACK] {
+                        v.push(rules::pc(c, rules::K));
+                        v.push(rules::pc(c, rules::Q));
+                        for k in [rules::R, rules::B, rules::N] {
+                            v.push(rules::pc(c, k));
+                            v.push(rules::pc(c, k));
+                        }
+                        for _ in 0..8 {
+                            v.push(rules::pc(c, rules::P));
+                        }
+                    }
+                    v
+                };
+                let mut p = Pos::empty();
+                let mut ok = true;
+                for &m in &men {
+                    let mut tries = 0;
+                    loop {
+                        let sq = (next() % 64) as u8;
+                        tries += 1;
+                        if tries > 200 {
+                            ok = false;
+                            break;
+                        }
+                        if p.b[sq as usize] != rules::EMPTY {
+                            continue;
+                        }
+                        if rules::kind_of(m) == rules::P && (rules::rank_of(sq) == 0 || rules::rank_of(sq) == 7) {
+                            continue;
+                        }
+                        p.b[sq as usize] = m;
+                        break;
+                    }
+                }
+                if !ok {
+                    continue;
+                }
+                p.stm = if next() % 2 == 0 { rules::WHITE } else { rules::BLACK };
+                if !p.is_legal_position() || p.legal_moves().is_empty() || p.in_check(p.stm) {
+                    continue;
+                }
+                let root = fresh_root(&p, &h);
+                let succs = crate::move_generation::generate_moves(&root.board, crate::move_generation::MoveGenerationMode::AllMoves, &h);
+                let value = |qcap: u32| -> Option<(i32, u32)> {
+                    let mut r = Ref::new(&h, 20_000_000);
+                    r.qcap = qcap;
+                    let mut table = root.table.clone();
+                    let mut best = i32::MIN;
+                    for c in &succs {
+                        let v = -r.alphabeta(c, 0, 1, -10_000_000, 10_000_000, &mut table);
+                        if r.capped {
+                            return None;
+                        }
+                        best = best.max(v);
+                    }
+                    Some((best, r.max_qply))
+                };
+                let (exact, deepest) = match value(u32::MAX) {
+                    Some(v) => v,
+                    None => continue,
+                };
+                if deepest < min_d {
+                    continue;
+                }
+                // filter: a cut at min_d itself must already change the value
+                match value(min_d) {
+                    Some((v, _)) if v != exact => {}
+                    _ => continue,
+                }
+                let mut d = 0;
+                let mut n = deepest;
+                while n >= min_d {
+                    match value(n) {
+                        Some((v, _)) if v != exact => {
+                            d = n;
+                            break;
+                        }
+                        _ => {}
+                    }
+                    n -= 1;
+                }
+                if d >= min_d {
+                    found.lock().unwrap().push((d, p.fen()));
+                }
+            });
+        }
+    });
+    let mut v = found.into_inner().unwrap();
+    v.sort();
+    for (d, f) in v {
+        println!("{} {}", d, f);
+    }
 }
